@@ -439,3 +439,14 @@ class Report:
             (self.pid, self.tier, cov["evaluations"], cov["distinct_nontrivial"], cov["states"],
              cov["traces_validated_against_impl"], nviol, len(kf), ev["wall_s"]))
         return EXIT_VIOLATION if nviol else EXIT_OK
+
+
+def shim():
+    """build (once per process) the LD_PRELOAD shim for the unmodified tools; returns its path"""
+    d = os.path.join(OUT, "bin")
+    os.makedirs(d, exist_ok=True)
+    so = os.path.join(d, "libvshim.%d.so" % os.getpid())
+    if not os.path.exists(so):
+        run(["gcc", "-shared", "-fPIC", "-O2", "-o", so, os.path.join(DRV, "vshim.c"), "-ldl"], check=True)
+        atexit.register(lambda: os.path.exists(so) and os.unlink(so))
+    return so
